@@ -22,13 +22,16 @@ PAL_BY = {p[0]: p for p in PAL}
 DEPTHS = [1, 16, 88, 256, 2 ** 24]
 
 
-def expected_pen(attr, depth):
+NONE_ENTRY = (None, "yellow", "dark blue", "underline", "#ffff00", "#0000ff")     # a palette entry for the attribute None
+
+
+def expected_pen(attr, depth, none_entry=False):
     """What a terminal should show for a canvas attribute at a colour depth (independent table)."""
-    if attr is None or attr == "nope":
+    if attr == "nope" or (attr is None and not none_entry):
         return [-1, -1, []]
     if isinstance(attr, tuple) and attr[0] == "spec":   # ("spec", fg, bg): an AttrSpec object
         return term.spec_to_pen(attr[1], attr[2], depth)
-    name, fg, bg, mono, fgh, bgh = PAL_BY[attr]
+    name, fg, bg, mono, fgh, bgh = PAL_BY[attr] if attr is not None else NONE_ENTRY
     if depth == 1:
         return term.spec_to_pen(mono or "default", "default", 1)
     if depth == 16:
@@ -47,7 +50,7 @@ def expected_pen(attr, depth):
 class Rig:
     """A real raw_display.Screen writing into a string buffer."""
 
-    def __init__(self, colors, bce, encoding, bib, pal_first=False):
+    def __init__(self, colors, bce, encoding, bib, pal_first=False, none_entry=False):
         import urwid
         from urwid.display import raw
 
@@ -56,14 +59,15 @@ class Rig:
         self.encoding = encoding
         self.out = io.StringIO()
         self.screen = raw.Screen(input=io.StringIO(), output=self.out)
+        pal = PAL + ([NONE_ENTRY] if none_entry else [])
         if pal_first:   # the order MainLoop(palette=...) uses: palette registered before the terminal properties are set
-            for name, fg, bg, mono, fgh, bgh in PAL:
+            for name, fg, bg, mono, fgh, bgh in pal:
                 self.screen.register_palette_entry(name, fg, bg, mono, fgh, bgh)
         self.screen.set_terminal_properties(colors=colors, bright_is_bold=bib)
         self.screen.bg_bright_is_blink = False
         self.screen.back_color_erase = bce
         if not pal_first:
-            for name, fg, bg, mono, fgh, bgh in PAL:
+            for name, fg, bg, mono, fgh, bgh in pal:
                 self.screen.register_palette_entry(name, fg, bg, mono, fgh, bgh)
         self.screen._started = True
         self.colors = colors
@@ -115,10 +119,10 @@ class Rig:
         return s
 
 
-def project(canvas, encoding, depth, attr_back):
+def project(canvas, encoding, depth, attr_back, none_entry=False):
     cells = []
     for row in canvas.content():
-        cells.append(term.project_row(row, encoding, lambda a: expected_pen(attr_back(a), depth)))
+        cells.append(term.project_row(row, encoding, lambda a: expected_pen(attr_back(a), depth, none_entry)))
     return cells
 
 
@@ -126,7 +130,8 @@ def run_sequence(cfg, w, h, ops):
     """ops: ('draw', rows, cursor) | ('clear',) | ('resize', w, h).  Returns a trace."""
     colors, bce, enc, bib = cfg[:4]
     pal_first = bool(cfg[4]) if len(cfg) > 4 else False
-    rig = Rig(colors, bce, enc, bib, pal_first)
+    none_entry = bool(cfg[5]) if len(cfg) > 5 else False
+    rig = Rig(colors, bce, enc, bib, pal_first, none_entry)
     ev = []
 
     def attr_back(a):
@@ -136,15 +141,20 @@ def run_sequence(cfg, w, h, ops):
         return a
 
     cw, chh = w, h
+    last = None      # (canvas object, rows, cursor, size) of the last frame drawn
     for op in ops:
-        if op[0] == "draw":
-            rows, cursor = op[1], op[2]
+        if op[0] == "redraw" and (last is None or last[3] != (cw, chh)):
+            continue
+        if op[0] in ("draw", "redraw"):
+            rows, cursor = (op[1], op[2]) if op[0] == "draw" else (last[1], last[2])
             try:
-                canv = rig.canvas(rows, tuple(cursor) if cursor else None)
+                # "redraw": the very same canvas object again, as the widget canvas cache hands it back
+                canv = rig.canvas(rows, tuple(cursor) if cursor else None) if op[0] == "draw" else last[0]
+                last = (canv, rows, cursor, (cw, chh))
                 rig.screen.draw_screen((cw, chh), canv)
                 toks = term.tokenize(rig.take())
                 ev += toks
-                ev.append({"t": "frame", "cells": project(canv, enc, colors, attr_back), "cur": list(cursor) if cursor else []})
+                ev.append({"t": "frame", "cells": project(canv, enc, colors, attr_back, none_entry), "cur": list(cursor) if cursor else []})
             except Exception as ex:  # noqa: BLE001
                 ev += term.tokenize(rig.take())
                 ev.append({"t": "exc", "exc": type(ex).__name__, "msg": str(ex)[:100]})
@@ -157,7 +167,7 @@ def run_sequence(cfg, w, h, ops):
             # what Screen.parse_input does when it reports 'window resize' to the main loop
             rig.screen._resized = False
             ev.append({"t": "resize", "w": cw, "h": chh})
-    return {"w": w, "h": h, "bib": bool(bib), "cfg": [colors, bce, enc, bib, pal_first], "ops": ops, "ev": ev}
+    return {"w": w, "h": h, "bib": bool(bib), "cfg": [colors, bce, enc, bib, pal_first, none_entry], "ops": ops, "ev": ev}
 
 
 ATTRS_COMMON = [None, "p_red", "p_brt", "p_und", "p_hi", "p_so", "p_st", "nope", ("spec", "dark cyan,italics", "brown"),
@@ -218,6 +228,12 @@ def rand_sequence(rng, cfg):
         r = rng.random()
         if r < 0.12:
             ops.append(("clear",))
+            if prev is not None and rng.random() < 0.5:
+                ops.append(("redraw",))      # forced repaint of the unchanged (identical) canvas
+            continue
+        if r < 0.16 and prev is not None:
+            ops.append(("resize", cw, ch))   # SIGWINCHs that end at the same size: everything must be repainted
+            ops.append(("redraw",))
             continue
         if r < 0.24:
             cw, ch = rng.randint(1, 6), rng.randint(1, 3)
@@ -370,7 +386,7 @@ def configs(quick):
             for enc in ("utf-8", "euc-jp", "iso8859-1"):
                 for bib in (False, True):
                     for pal_first in (False, True):
-                        out.append((colors, bce, enc, bib, pal_first))
+                        out.append((colors, bce, enc, bib, pal_first, (len(out) % 3) == 1))    # every third: a palette entry for None
     return out
 
 
